@@ -81,7 +81,7 @@ def gen_cfg(st: Stream, kind: str) -> Dict[str, Any]:
     # ... and overlay-type windows it may only touch when the configuration is an "overlapping overlays" one
     soft: List[Tuple[int, int]] = [(M.CARD_LO, M.CARD_HI)]
     if kind in ("py-emu",):
-        hard += [(0x2000, 0x200F), (0xA000, 0xAFFF)]
+        hard += [(0x2000, 0x2FFF), (0xA000, 0xAFFF)]
     if cpu:
         hard += [(0x2000, 0x2FFF), (0xA000, 0xAFFF), (M.CODE_LO, M.CODE_HI)]
     overlap = st.chance(3, 10)
